@@ -89,6 +89,11 @@ type pathOpts struct {
 	StopAt      func(b *ssa.BasicBlock) bool // in the root frame: end the path before entering b
 	// AssumeEdge: optional pruning of infeasible edges (from -> to) in the root frame
 	SkipEdge func(from, to *ssa.BasicBlock) bool
+	// Unroll: extra traversals allowed per edge (and visits per block) in the root frame, for
+	// rules about loop-carried variables (default 0: every edge once, every block twice)
+	Unroll int
+	// EmitCut: also report the prefixes that end where the unrolling bound is reached (Exit "cut")
+	EmitCut bool
 }
 
 type pathEngine struct {
@@ -179,7 +184,14 @@ func (e *pathEngine) walkBlock(fr *Frame, pred, b *ssa.BasicBlock, en *env, k fu
 	}
 	if pred != nil {
 		ek := [2]int{pred.Index, b.Index}
-		if fr.edges[ek] >= 1 || fr.visits[b.Index] >= 2 {
+		el, bl := 1, 2
+		if fr == e.root && e.opts.Unroll > 0 {
+			el, bl = 1+e.opts.Unroll, 2+e.opts.Unroll
+		}
+		if fr.edges[ek] >= el || fr.visits[b.Index] >= bl {
+			if fr == e.root && e.opts.EmitCut {
+				e.emit("cut", nil, en)
+			}
 			return
 		}
 		if fr == e.root && e.opts.SkipEdge != nil && e.opts.SkipEdge(pred, b) {
@@ -202,14 +214,15 @@ func (e *pathEngine) walkBlock(fr *Frame, pred, b *ssa.BasicBlock, en *env, k fu
 				pi = i
 			}
 		}
+		// resolve the chosen edges eagerly, all in the *old* env (parallel assignment semantics)
+		old := en
 		for _, in := range b.Instrs {
 			phi, ok := in.(*ssa.Phi)
 			if !ok {
 				break
 			}
 			if pi >= 0 {
-				// resolve the chosen edge eagerly in the *old* env (parallel assignment semantics)
-				chosen := e.resolve(Val{phi.Edges[pi], fr, en})
+				chosen := e.resolve(Val{phi.Edges[pi], fr, old})
 				en = &env{phiKey{fr, phi}, chosen, en}
 			}
 		}
